@@ -1404,6 +1404,19 @@ package main
 //@   ensures [C20] marks_kept: 0 <= sub.SeqId && sub.SeqId < 2147483648 && 0 <= sub.ReadSeqId && sub.ReadSeqId < 2147483648 && 0 <= sub.RecvSeqId && sub.RecvSeqId < 2147483648 && 0 <= sub.DelId && sub.DelId < 2147483648 ==> int(out.SeqId) == sub.SeqId && int(out.ReadId) == sub.ReadSeqId && int(out.RecvId) == sub.RecvSeqId && int(out.DelId) == sub.DelId
 //@   ensures [C20] acs_kept: out.Acs != nil && out.Acs.Want == sub.Acs.Want && out.Acs.Given == sub.Acs.Given
 
+// C20 (extension): a {ctrl} reply answers the same request, about the same topic, with the same code and text over gRPC
+// as in JSON (its parameters: the bounded stand-in below); a {meta} reply keeps its request id, topic and tag list.
+//@ func pbServCtrlSerialize(ctrl *MsgServerCtrl) (r *pbx.ServerMsg_Ctrl)
+//@   requires [C20] ctrl != nil
+//@   modifies inferred
+//@   ensures [C20] id_topic_code_text_kept: r != nil && r.Ctrl != nil && r.Ctrl.Id == ctrl.Id && r.Ctrl.Topic == ctrl.Topic && r.Ctrl.Text == ctrl.Text && (0 <= ctrl.Code && ctrl.Code < 2147483648 ==> int(r.Ctrl.Code) == ctrl.Code)
+//@ func pbServMetaSerialize(meta *MsgServerMeta) (r *pbx.ServerMsg_Meta)
+//@   requires [C20] meta != nil
+// (the credential list is built from store rows, one allocated record each - what pbServerCredsSerialize asks for)
+//@   requires [C20] forall k int :: 0 <= k && k < len(meta.Cred) ==> meta.Cred[k] != nil
+//@   modifies inferred
+//@   ensures [C20] id_topic_tags_kept: r != nil && r.Meta != nil && r.Meta.Id == meta.Id && r.Meta.Topic == meta.Topic && ref(r.Meta.Tags) == ref(meta.Tags) && len(r.Meta.Tags) == len(meta.Tags)
+
 // C20: a presence notice keeps its actor and its target apart on the wire.
 //@ func pbServPresSerialize(pres *MsgServerPres) (r *pbx.ServerMsg_Pres)
 //@   requires [C20] pres != nil
